@@ -130,8 +130,40 @@ pub fn check_relation(which: Which, cat: &Catalog, rel: &Relation, sql: &str, fe
             if !size.iter().any(|[a, b]| *a <= n && n <= *b) {
                 let side = if size.max().map_or(false, |m| n > *m) { "above-max" } else { "below-min-or-gap" };
                 tainted.insert(name.clone());
+                // outer joins: the bound differs according to whether the ON clause equates a UNIQUE column
+                let join_class = match node {
+                    Relation::Join(j) if !matches!(j.operator(), qrlew::relation::JoinOperator::Inner(_) | qrlew::relation::JoinOperator::Cross) => {
+                        fn eq_on_unique(e: &qrlew::expr::Expr, j: &qrlew::relation::Join) -> bool {
+                            use qrlew::expr::{function::Function as F, Expr};
+                            match e {
+                                Expr::Function(f) => {
+                                    let a = f.arguments();
+                                    if f.function() == F::Eq && a.len() == 2 {
+                                        let unique = |x: &Expr| match x {
+                                            Expr::Column(c) if c.len() == 2 => {
+                                                let side = if c[0] == qrlew::relation::Join::left_name() { j.left() } else { j.right() };
+                                                side.schema().field(&c[1]).map_or(false, |fd| fd.constraint().is_some() && fd.constraint() != Some(qrlew::relation::Constraint::ForeignKey))
+                                            }
+                                            _ => false,
+                                        };
+                                        unique(&a[0]) || unique(&a[1])
+                                    } else {
+                                        a.iter().any(|x| eq_on_unique(x, j))
+                                    }
+                                }
+                                _ => false,
+                            }
+                        }
+                        let on = match j.operator() {
+                            qrlew::relation::JoinOperator::LeftOuter(e) | qrlew::relation::JoinOperator::RightOuter(e) | qrlew::relation::JoinOperator::FullOuter(e) => Some(e),
+                            _ => None,
+                        };
+                        if on.map_or(false, |e| eq_on_unique(e, j)) { "|ON equates a unique column" } else { "|no unique column in ON" }
+                    }
+                    _ => "",
+                };
                 rep.violation(
-                    format!("C07|size|{}|{}", kind(node), side),
+                    format!("C07|size|{}|{}{}", kind(node), side, join_class),
                     format!("node {} ({}) produced {} rows, declared size {}", name, kind(node), n, size),
                     {
                         let mut c = case_json(cat, sql, &rendered);
